@@ -28,7 +28,9 @@ CONFIG = {
               "returns MCA C n A (truth-table count) and re-establishes Clean. Corollaries: C02_strategy_independent (marker and "
               "default strategy both = MCA on every list), C16_count_history_independent (answer from any Clean state = answer from "
               "the fresh state), C02_split (MCA A = MCA (x::A) + MCA (-x::A)), C02_countsA_is_MCA. No axioms. The model is tied to "
-              "the Rust by the correspondence run (model = implementation on every request) and the truth-table oracle",
+              "the Rust by the correspondence run (model = implementation on every request) and the truth-table oracle. "
+              "C02_contradictory_is_zero / C02_MCA_contradictory: a list containing both x and -x (any position, any length, "
+              "hence any strategy) is contained in no model and execute_query answers 0",
     "assumptions": [
         "assumption literals within 1..n",
         "all 3^n consistent partial assignments for n <= 4 (quick) / 6 (thorough), random lists with duplicates and contradictions of lengths 0,1,2,3,19,20,21,22,40",
